@@ -44,7 +44,8 @@ def inOf (s : String) : Option In := do
   else pure { table := t, peerIP := p, peerText := pt, peerPort := pp, host := h, hdr := hd,
               localText := lt, ipd := ipd, ptd := ptd }
 
-def renderHdr (h : Hdr) : String :=
+def renderHdr (h0 : Hdr) : String :=
+  let h := h0.filter fun kv => !kv.2.isEmpty   -- keys without values are not part of the comparison
   if h.isEmpty then "_"
   else "|".intercalate ((sortKV h).map fun kv =>
     hexField kv.1 ++ ":" ++ (if kv.2.isEmpty then "_" else ",".intercalate (kv.2.map hexField)))
@@ -63,45 +64,99 @@ def dictsComplete (i : In) : Bool :=
   [c.1, c2.1, c3.1].all (fun s => s.isEmpty || i.ipd.any (·.1 == s)) &&
   [c.2, c2.2, c3.2].all (fun s => i.ptd.any (·.1 == s))
 
-def implOf (s : String) : Option (Option (Bytes × Int) × Hdr) :=
+def implOf (s : String) : Option (Option (Bytes × Int) × Hdr × Hdr) :=
   match s.splitOn " " with
-  | [a, b] =>
-    if a.startsWith "ca=" && b.startsWith "hd=" then do
+  | [a, b, c] =>
+    if a.startsWith "ca=" && b.startsWith "hd=" && c.startsWith "up=" then do
       let cas := (a.drop 3).toString
       let hd ← hdrOf (b.drop 3).toString
-      if cas == "nil" then pure (none, hd)
+      let up ← hdrOf (c.drop 3).toString
+      if cas == "nil" then pure (none, hd, up)
       else match cas.splitOn ":" with
         | [x, y] => do
           let ip ← bytesOfHex x
           let port ← y.toInt?
-          pure (some (ip, port), hd)
+          pure (some (ip, port), hd, up)
         | _ => none
     else none
   | _ => none
+
+def renderAll (i : In) : String := render (resolve i) ++ " up=" ++ renderHdr (upstream i)
+
+/-- what the property demands of the headers sent upstream (after hopByHopHeaderRemove) -/
+def upstreamViolation (i : In) (ca : Option (Bytes × Int)) (up : Hdr) : Option String :=
+  if !trusted i then (untrustedViolation i ca up).map fun c => c ++ "-upstream"
+  else match ca with
+    | some (ip, port) =>
+      if hvals up kXRealIp != some [ip] || hvals up kXRealPort != some [itoa port] then some "trusted-realip-upstream" else none
+    | none => none
+
+/-- one connection: model output, verdict, tags -/
+def judgeConn (i : In) (impl : String) : Ans :=
+  if impl == "bad-op" || !dictsComplete i then { model := "bad-op", verdict := "skip", tags := ["bad-op"] }
+  else
+    let m := renderAll i
+    let tr := trusted i
+    let tags := [if tr then "trusted" else "untrusted"] ++
+      (if (hvals i.hdr kXRealIp).isSome then ["has-xri"] else []) ++
+      (if (hvals i.hdr kXFF).isSome then ["has-xff"] else []) ++
+      (if i.table.isEmpty then ["empty-table"] else []) ++
+      (if (BfeVerif.C26.connNames (resolve i).2).isEmpty then [] else ["conn-tokens"]) ++
+      (if (hvals i.hdr BfeVerif.C25.kConnection).isSome &&
+          (BfeVerif.C26.lookup i.hdr BfeVerif.C25.kConnection).any (fun v => !(BfeVerif.C25.splitOn 44 v).all fun t =>
+            !(BfeVerif.Generated.C26.hopProtected.contains (BfeVerif.C26.canon (BfeVerif.C26.trimSpace t)))) then ["conn-names-bfe-header"] else []) ++
+      (if (hvals i.hdr kXRealIp).isSome || (hvals i.hdr kXFF).isSome then ["nt"] else []) ++
+      (match clientAddr i with | none => ["ca-nil"] | some _ => [])
+    match implOf impl with
+    | none => { model := m, verdict := "FAIL:unreadable", tags := tags }
+    | some (ca, h, up) =>
+      let v := if tr then trustedViolation i ca h else untrustedViolation i ca h
+      match v with
+      | some c => { model := m, verdict := "FAIL:" ++ c, tags := tags }
+      | none =>
+        match upstreamViolation i ca up with
+        | some c => { model := m, verdict := "FAIL:" ++ c, tags := tags }
+        | none => { model := m, verdict := "ok", tags := tags }
+
+/-- a reload history: steps `L.<version>.<ranges>.<kind>` (kind `ok` = a file the loader accepts) and `C.<connection>`;
+    the table of a connection is the one of the last successful load (the model ignores versions) -/
+def runHistory (steps : List String) (impls : List String) : Ans :=
+  let rec go (steps impls : List String) (table : List (Bytes × Bytes)) (cur : String) (acc : List Ans) : List Ans :=
+    match steps with
+    | [] => acc.reverse
+    | st :: rest =>
+      let impl := impls.headD ""
+      match st.splitOn "." with
+      | ["L", ver, rs, kind] =>
+        (match rangesOf rs with
+         | none => go rest impls.tail table cur ({ model := "bad-op", verdict := "skip" } :: acc)
+         | some r =>
+           let good := kind == "ok"
+           let sameVer := good && ver == cur && r != table
+           let a : Ans := { model := if good then "L=ok" else "L=err", verdict := "skip",
+                            tags := ["load-" ++ kind] ++ (if sameVer then ["reload-same-version"] else []) }
+           go rest impls.tail (if good then r else table) (if good then ver else cur) (a :: acc))
+      | ["C", payload] =>
+        (match inOf payload with
+         | none => go rest impls.tail table cur ({ model := "bad-op", verdict := "skip" } :: acc)
+         | some i => go rest impls.tail table cur (judgeConn { i with table := table } impl :: acc))
+      | _ => go rest impls.tail table cur ({ model := "bad-op", verdict := "skip" } :: acc)
+  let answers := go steps impls [] "\u0000none" []
+  let fails := answers.filter fun a => a.verdict.startsWith "FAIL"
+  let oks := answers.filter fun a => a.verdict == "ok"
+  { model := "/".intercalate (answers.map (·.model)),
+    verdict := (match fails with | a :: _ => a.verdict | [] => if oks.isEmpty then "skip" else "ok"),
+    tags := ("history" :: answers.flatMap (·.tags)).eraseDups }
 
 def run (op impl : String) : Ans :=
   match op.splitOn " " with
   | ["ca", s] =>
     (match inOf s with
      | none => { model := "bad-op", verdict := "skip" }
-     | some i =>
-       if impl == "bad-op" || !dictsComplete i then { model := "bad-op", verdict := "skip", tags := ["bad-op"] }
-       else
-         let m := render (resolve i)
-         let tr := trusted i
-         let tags := [if tr then "trusted" else "untrusted"] ++
-           (if (hvals i.hdr kXRealIp).isSome then ["has-xri"] else []) ++
-           (if (hvals i.hdr kXFF).isSome then ["has-xff"] else []) ++
-           (if i.table.isEmpty then ["empty-table"] else []) ++
-           (if (hvals i.hdr kXRealIp).isSome || (hvals i.hdr kXFF).isSome then ["nt"] else []) ++
-           (match clientAddr i with | none => ["ca-nil"] | some _ => [])
-         match implOf impl with
-         | none => { model := m, verdict := "FAIL:unreadable", tags := tags }
-         | some (ca, h) =>
-           let v := if tr then trustedViolation i ca h else untrustedViolation i ca h
-           match v with
-           | none => { model := m, verdict := "ok", tags := tags }
-           | some c => { model := m, verdict := "FAIL:" ++ c, tags := tags })
+     | some i => judgeConn i impl)
+  | ["rl", s] =>
+    if impl == "bad-op" then { model := "bad-op", verdict := "skip", tags := ["bad-op"] }
+    else runHistory (s.splitOn "/") (impl.splitOn "/")
   | _ => { model := "bad-op", verdict := "skip" }
 
 end BfeVerif.C29
